@@ -75,6 +75,14 @@ fn addr_facts<T: Copy + Pl + Tr + 'static>(v: T) {
     assert!(&*o as *const T == d);
     let b = Arc::from_raw_offset(o);
     assert!(Arc::ptr_eq(&a, &b));
+    // the OffsetArc lent by with_raw_offset_arc is the same allocation, bit pattern = the value's address,
+    // and lending it is not an operation on the count
+    let before = Arc::count(&a);
+    a.with_raw_offset_arc(|o| {
+        assert!(unsafe { transmute_copy::<OffsetArc<T>, usize>(o) } == d as usize, "lent OffsetArc's bit pattern is not the value's address");
+        assert!(Arc::count(&a) == before, "with_raw_offset_arc changed the count while lending");
+    });
+    assert!(Arc::count(&a) == before, "with_raw_offset_arc changed the count");
     // into_raw / from_raw
     let p = Arc::into_raw(b);
     assert!(p == d, "into_raw is not the address of the value");
